@@ -108,9 +108,14 @@ _FN = None
 FLOOD = 20000    # unattributed violations after which a run stops early
 
 
+_STOP = None     # shared flag: set by the parent when the run is flooded
+
+
 def _call(chunk):
     res = Result()
     for item in chunk:
+        if _STOP is not None and _STOP.value:
+            break
         _FN(item, res)
         if sum(1 for v in res.violations if v["kf"] is None) > FLOOD:
             res.caps_hit.append("chunk stopped early: violation flood")
@@ -131,7 +136,7 @@ def pmap(ctx, fn, items, chunk=None):
     order).  A run that has collected more than FLOOD violations without a
     known-finding id stops early (the check fails anyway; a tree that is
     broken that badly can also be arbitrarily slow): the cap is reported."""
-    global _FN
+    global _FN, _STOP
     items = list(items)
     total = Result()
     if not items:
@@ -155,12 +160,21 @@ def pmap(ctx, fn, items, chunk=None):
                 break
     else:
         mpctx = mp.get_context("fork")
+        _STOP = mpctx.Value("i", 0)
+        stopped = False
         with mpctx.Pool(workers) as pool:
+            # after a flood the workers skip their remaining items; the
+            # results are still drained (terminating a pool whose result
+            # pipe is full can hang)
             for i, r in pool.imap_unordered(_call_indexed,
                                             list(enumerate(chunks))):
+                if stopped:
+                    continue
                 done[i] = r
                 if flooded(r):
-                    break       # leaving the with-block terminates the pool
+                    stopped = True
+                    _STOP.value = 1
+        _STOP = None
     for i in sorted(done):
         total.merge(done[i])
     if len(done) < len(chunks):
